@@ -14,3 +14,10 @@ package keeper
 //@ func (DelegationHooksWrapper).AfterUndelegationStarted
 //@   flag assumed
 //@   modifies store(ctx, "dogfood"), get(ctx, "delegation", holdKey(recordKey))
+
+//@ func (Keeper).UpdateParams
+//@   requires msg != nil
+//@   requires isMainnet(unwrap_ctx(ctx)) && k.authority != msg.Authority
+//@   flag prune
+//@   ensures[C10.up.dogfood] isMainnet(unwrap_ctx(ctx)) && k.authority != old(msg.Authority) ==>
+//@        err != nil && state(unwrap_ctx(ctx)) == old(state(unwrap_ctx(ctx)))
